@@ -8,12 +8,21 @@
      task <k> <d0> <d1>            (-1 = no dependency; the locks passed to set_dependency / set_extra_dependency)
      dedup <0|1>                   (optional; 1 = set_extra_dependency as repaired (default), 0 = pinned commit)
      prog <t> <tok> <tok> ...      (client program of thread t)
+     qprog <tok> <tok> ...         (optional: the quiescent pool operations of the master thread, in order)
      sched <t> <t> ...             (explicit schedule prefix; may be repeated)
      tail <cap>                    (then round robin over unfinished threads, at most <cap> steps in total)
      end
    program tokens: g getu=G f<n> l<l> t<l> u<n> i<c> p<c> m<c>:<v> a<c>:<v> A<q>:<k> T<q> Y<q> D<k> U<n>
    (f/u/U take the (n mod len)-th element of the thread's held slots / locks / tasks, newest first;
-   they are dropped when the thread holds nothing of that kind) *)
+   they are dropped when the thread holds nothing of that kind)
+   "|" in a program = barrier (end of a parallel region): the thread waits there.  Whenever every thread
+   is idle and stands at a barrier or at the end of its program, the master thread performs the next
+   token of qprog (if any is left) - a serial section - and the barriers are released:
+     c = clear()   k<off> = clear_after(off)   n<t>:<cnt> = get_free_elements(cnt), thread t becomes the holder
+   A call whose contract (C08_Defs.qpre: clear_after: off <= size and all slots below off held;
+   get_free_elements: empty pool, cnt <= size) does not hold in the current state is skipped.  Output:
+     q <text> <ok|skipped> H:<held slots of thread 0, newest first>;<thread 1>;...
+   followed by the state line. *)
 open C08_model
 
 let rec nat_of_int i = if i <= 0 then O else S (nat_of_int (i - 1))
@@ -40,17 +49,20 @@ type case = {
   mutable k_nthr : int; mutable k_psz : int; mutable k_cur : n; mutable k_nlocks : int; mutable k_nctr : int;
   mutable k_ntasks : int; mutable k_nq : int; mutable k_kind : int;
   mutable k_tasks : (int * int * int) list; mutable k_progs : (int * string list) list;
-  mutable k_sched : int list; mutable k_cap : int; mutable k_dedup : bool }
+  mutable k_sched : int list; mutable k_cap : int; mutable k_dedup : bool; mutable k_qprog : string list }
 
-let fresh () = { k_nthr = 0; k_psz = 1; k_cur = N0; k_nlocks = 0; k_nctr = 0; k_ntasks = 0; k_nq = 0; k_kind = 0; k_tasks = []; k_progs = []; k_sched = []; k_cap = 0; k_dedup = true }
+let fresh () = { k_nthr = 0; k_psz = 1; k_cur = N0; k_nlocks = 0; k_nctr = 0; k_ntasks = 0; k_nq = 0; k_kind = 0; k_tasks = []; k_progs = []; k_sched = []; k_cap = 0; k_dedup = true; k_qprog = [] }
 
 let split_colon s = match String.split_on_char ':' s with [ a; b ] -> (a, b) | _ -> failwith ("bad token " ^ s)
 let tail s = String.sub s 1 (String.length s - 1)
 
 (* next operation of an idle thread: drops tokens that are not applicable *)
-let rec peek (ts : tstate) (toks : string list) : (op * string * string list) option =
+type next = Finished | Barrier of string list | Op of op * string * string list
+
+let rec peek (ts : tstate) (toks : string list) : next =
   match toks with
-  | [] -> None
+  | [] -> Finished
+  | "|" :: _ -> Barrier toks
   | tok :: rest -> (
       let pick l n = match l with [] -> None | _ -> Some (List.nth l (n mod List.length l)) in
       let a = tail tok in
@@ -73,7 +85,16 @@ let rec peek (ts : tstate) (toks : string list) : (op * string * string list) op
         | 'U' -> ( match pick ts.htasks (int_of_string a) with None -> None | Some k -> Some (OUnlockDep k, "unlockdep:" ^ string_of_int (int_of_nat k)))
         | _ -> failwith ("bad token " ^ tok)
       in
-      match r with None -> peek ts rest | Some (o, txt) -> Some (o, txt, rest))
+      match r with None -> peek ts rest | Some (o, txt) -> Op (o, txt, rest))
+
+(* a quiescent operation of the master thread *)
+let qop_of_token (tok : string) : qop * string =
+  let a = tail tok in
+  match tok.[0] with
+  | 'c' -> (QClear, "clear")
+  | 'k' -> (QClearAfter (nat_of_int (int_of_string a)), "clear_after:" ^ a)
+  | 'n' -> let t, n = split_colon a in (QGetN (nat_of_int (int_of_string t), nat_of_int (int_of_string n)), "get_free_elements:" ^ t ^ ":" ^ n)
+  | _ -> failwith ("bad quiescent token " ^ tok)
 
 let aop_name = function
   | AStart -> "start" | ASkip -> "skip" | ALoad -> "load" | ACasLock -> "cas_lock" | ACasUnlock -> "cas_unlock"
@@ -133,6 +154,7 @@ let run_case (id : string) (c : case) =
   List.iter (fun (t, p) -> if t < c.k_nthr then progs.(t) <- p) c.k_progs;
   let s = ref (init cfg) in
   let steps = ref 0 in
+  let qprog = ref c.k_qprog in
   Printf.printf "case %s\n%s\n" id (state_line c !s);
   (* returns true if thread t made a step *)
   let step_thread t =
@@ -151,18 +173,44 @@ let run_case (id : string) (c : case) =
     match ts.tpc with
     | Idle -> (
         match peek ts progs.(t) with
-        | None -> progs.(t) <- []; false
-        | Some (o, txt, rest) -> progs.(t) <- rest; go o (Some txt); true)
+        | Finished -> progs.(t) <- []; false
+        | Barrier rest -> progs.(t) <- rest; false
+        | Op (o, txt, rest) -> progs.(t) <- rest; go o (Some txt); true)
     | _ -> go OGet None; true
   in
-  List.iter (fun t -> if t >= 0 && t < c.k_nthr && !steps < c.k_cap then ignore (step_thread t)) c.k_sched;
+  (* serial section: every thread idle and at a barrier or finished *)
+  let maybe_serial () =
+    if !steps >= c.k_cap then false
+    else begin
+      let st = List.map (fun t -> let ts = !s.thr (nat_of_int t) in
+                                  match ts.tpc with Idle -> peek ts progs.(t) | _ -> Op (OGet, "", [])) (range c.k_nthr) in
+      let waiting = List.for_all (fun x -> match x with Op _ -> false | _ -> true) st in
+      let at_barrier = List.exists (fun x -> match x with Barrier _ -> true | _ -> false) st in
+      if not waiting || not (at_barrier || !qprog <> []) then false
+      else begin
+        (match !qprog with
+         | [] -> ()
+         | tok :: rest ->
+             qprog := rest;
+             let q, txt = qop_of_token tok in
+             let ok = qpre_b cfg !s q in
+             if ok then s := qexec cfg !s q;
+             let hl = String.concat ";" (List.map (fun t -> String.concat "," (List.map (fun i -> string_of_int (int_of_nat i)) (!s.thr (nat_of_int t)).held)) (range c.k_nthr)) in
+             Printf.printf "q %s %s H:%s\n%s\n" txt (if ok then "ok" else "skipped") hl (state_line c !s));
+        List.iteri (fun t x -> match x with Barrier rest -> progs.(t) <- List.tl rest | Finished -> progs.(t) <- [] | _ -> ()) st;
+        true
+      end
+    end
+  in
+  List.iter (fun t -> while maybe_serial () do () done; if t >= 0 && t < c.k_nthr && !steps < c.k_cap then ignore (step_thread t)) c.k_sched;
   let progress = ref true in
   while !progress && !steps < c.k_cap do
     progress := false;
+    if maybe_serial () then progress := true;
     List.iter (fun t -> if !steps < c.k_cap then if step_thread t then progress := true) (range c.k_nthr)
   done;
   let unfinished =
-    List.exists (fun t -> let ts = !s.thr (nat_of_int t) in ts.tpc <> Idle || peek ts progs.(t) <> None) (range c.k_nthr) in
+    List.exists (fun t -> let ts = !s.thr (nat_of_int t) in ts.tpc <> Idle || (match peek ts progs.(t) with Op _ -> true | _ -> false)) (range c.k_nthr) in
   Printf.printf "end %s steps=%d %s\n" id !steps (if unfinished then "capped" else "complete")
 
 let () =
@@ -178,6 +226,7 @@ let () =
           x.k_nctr <- int_of_string e; x.k_ntasks <- int_of_string f; x.k_nq <- int_of_string g; x.k_kind <- int_of_string h
       | [ "task"; k; a; b ] -> !c.k_tasks <- (int_of_string k, int_of_string a, int_of_string b) :: !c.k_tasks
       | "prog" :: t :: toks -> !c.k_progs <- (int_of_string t, toks) :: !c.k_progs
+      | "qprog" :: toks -> !c.k_qprog <- !c.k_qprog @ toks
       | "sched" :: ts -> !c.k_sched <- !c.k_sched @ List.map int_of_string ts
       | [ "dedup"; b ] -> !c.k_dedup <- (b <> "0")
       | [ "tail"; cap ] -> !c.k_cap <- int_of_string cap
